@@ -144,7 +144,7 @@ def read_seed_range():
     if len({(lo, hi) for _, lo, hi in calls}) != 1:
         raise ExtractError(f"preseed.py: different randint ranges in gen_seed_emis: {calls}")
     fp = hashlib.sha256(ast.dump(fn).encode()).hexdigest()[:16]
-    return {"low": calls[0][1], "high": calls[0][2], "sites": [c[0] for c in calls], "fingerprint": fp}
+    return {"low": calls[0][1], "high": calls[0][2], "sites": sorted(c[0] for c in calls), "fingerprint": fp}
 
 
 # ------------------------------------------------------------------------------------------------
